@@ -680,7 +680,8 @@ def corpus_net(rng, name):
         z = b.fm([1, 1, 1, 12], "int8", scale=0.0199, zp=-20)
         b.net.ops.append(netgen.Op("MEAN", [x, ax], [z], ("ReducerOptions", dict(KeepDims=True))))
         return b.finish([z])
-    b = make_builder(rng, name, "int16" if name in ("known_fc_int16", "known_lrelu16_relu6", "known_lrelu16_reshape", "known_lrelu16_rounding")
+    b = make_builder(rng, name, "int16" if name in ("known_fc_int16", "known_lrelu16_relu6", "known_lrelu16_reshape", "known_lrelu16_rounding",
+                                                   "known_lrelu16_negative_alpha")
                      else ("uint8" if name == "known_dilation3_asym" else "int8"))
     if name == "known_fc_int16":
         x = b.input([1, 2, 1, 16], scale=0.0011566292960196733, zp=0)
@@ -690,6 +691,8 @@ def corpus_net(rng, name):
         x = b.input([1, 9, 4, 8], scale=0.025, zp=0)
     elif name == "known_lrelu16_rounding":
         x = b.input([1, 2, 4, 4], scale=0.01, zp=0)
+    elif name == "known_lrelu16_negative_alpha":
+        x = b.input([1, 8, 2, 8], scale=0.01, zp=0)
     else:
       x = b.input({"known_pad_conv_reshape": [1, 4, 9, 4], "known_lut_reshape": [1, 3, 9, 8],
                  "known_cascade_stale_row": [1, 10, 8, 8], "known_slice_strided_conv": [1, 6, 6, 4],
@@ -786,6 +789,12 @@ def corpus_net(rng, name):
         # above the alpha branch (Props/C01Rewrites.lrelu_mulmax_id_witness)
         z = b.fm([1, 2, 4, 4], "int16", scale=0.02, zp=0)
         b.net.ops.append(netgen.Op("LEAKY_RELU", [x], [z], ("LeakyReluOptions", dict(Alpha=0.998))))
+    elif name == "known_lrelu16_negative_alpha":
+        # int16 LEAKY_RELU with a negative alpha (C06 thorough, network lut 0/186): convert_lrelu_to_mul_max gave the alpha constant
+        # the scale -2.0, the MUL got a negative OFM multiplier that the emitter masked into the unsigned OFM_SCALE register.
+        # Repaired by constraint_alpha_valid (the operator stays on the CPU); on the repaired tree this is a regression test.
+        z = b.fm([1, 8, 2, 8], "int16", scale=0.02, zp=0)
+        b.net.ops.append(netgen.Op("LEAKY_RELU", [x], [z], ("LeakyReluOptions", dict(Alpha=-2.0))))
     else:  # known_quantize_relu
         y = b.quantize(x)
         b.t(y).scales, b.t(y).zps = [0.03], [20]
